@@ -524,7 +524,8 @@ pub struct ReplayFile {
 }
 
 pub fn write_replay(prop: &str, engine: &str, v: &Violation, case: &Value) -> PathBuf {
-    let dir = Path::new(VERIF_DIR).join("replays").join("found");
+    let base = std::env::var("VERIF_OUT_DIR").unwrap_or_else(|_| VERIF_DIR.to_string());
+    let dir = Path::new(&base).join("replays").join("found");
     let _ = std::fs::create_dir_all(&dir);
     let rf = ReplayFile {
         property: prop.to_string(),
@@ -668,7 +669,9 @@ pub fn finish(ctx: &Ctx, started: Instant, out: Outcome, fin: Finish) -> i32 {
     });
 
     if ctx.replay.is_none() {
-        let dir = Path::new(VERIF_DIR).join("evidence");
+        // VERIF_OUT_DIR redirects evidence (experiments in the background); default /verif
+        let base = std::env::var("VERIF_OUT_DIR").unwrap_or_else(|_| VERIF_DIR.to_string());
+        let dir = Path::new(&base).join("evidence");
         let _ = std::fs::create_dir_all(&dir);
         let path = dir.join(format!("{}.json", ctx.prop));
         if let Err(e) = std::fs::write(&path, serde_json::to_string_pretty(&evidence).unwrap()) {
